@@ -119,6 +119,24 @@ fn events_mirror(a: &Done, b: &Done) -> bool {
     true
 }
 
+/// duplication "leaves the step sequence and each copy's solution unchanged up to rounding in the error norm": the same
+/// number of reported times, times equal to 1e-6 (1 + |t|) and the first copy's states equal to 1e-5 (1 + |y|)
+/// (the counters are compared exactly by the trace specification)
+fn copies_close(a: &Done, b: &Done) -> bool {
+    let (sa, sb) = match (&a.sol, &b.sol) { (Some(x), Some(y)) => (x, y), _ => return true };
+    if sa.t.len() != sb.t.len() { return false; }
+    for i in 0..sa.t.len() {
+        if !((sa.t[i] - sb.t[i]).abs() <= 1e-6 * (1.0 + sa.t[i].abs())) { return false; }
+        let n = sa.y[i].len();
+        if sb.y[i].len() < n { return false; }
+        for q in 0..n {
+            let (u, v) = (sa.y[i][q], sb.y[i][q]);
+            if !((u - v).abs() <= 1e-5 * (1.0 + u.abs())) && !(u.is_nan() && v.is_nan()) { return false; }
+        }
+    }
+    true
+}
+
 /// where a requested time coincides bit-for-bit with an accepted step end of the grid run, the reported value is the
 /// state of that step end to rounding
 fn grid_values_ok(grid: &Done, tev: &Done, rel: f64) -> bool {
@@ -211,6 +229,67 @@ fn fam_core(o: &mut Out, quick: bool, rng: &mut Rng) {
                 c.tags = vec![tag.to_string()];
                 o.run(c);
             }
+        }
+    }
+    // the interval is a whole number of max_step plus a remainder of less than 1% (the landing stretch must cover it)
+    for m in ADAPTIVE {
+        for (x0, dirn) in [(0.0, 1.0), (1.0, -1.0)] {
+            for frac in [0.005, 0.0099, 0.0002] {
+                let ms = 0.1;
+                let mut c = base(m, Problem::new("decay", 0.001), x0, x0 + dirn * ms * (10.0 + frac));
+                c.max_step = Some(ms);
+                c.jac = "user".into();
+                c.tags = vec!["max_step_remainder_below_1pct".into()];
+                o.run(c.clone());
+                c.first_step = Some(dirn * ms);
+                c.tags = vec!["max_step_remainder_below_1pct+first_step".into()];
+                o.run(c);
+            }
+        }
+    }
+    // Radau on a nonlinear problem, xend swept across the step grid (the kept-step fast path next to the landing test)
+    for (i, tol) in [1e-6, 1e-8, 1e-9].iter().enumerate() {
+        for k in 0..(if quick { 10 } else { 40 }) {
+            for dirn in [1.0, -1.0] {
+                if dirn < 0.0 && k % 2 == 1 { continue; }
+                let xe = 3.1 + 0.0437 * k as f64 + 0.011 * i as f64;
+                let mut c = base("RADAU", Problem::new("vdp", 1.0), 0.0, dirn * xe);
+                c.problem.reflect = dirn < 0.0;
+                c.rtol = vec![*tol];
+                c.atol = vec![*tol * 1e-2];
+                c.jac = "user".into();
+                c.tags = vec!["radau_xend_sweep".into()];
+                o.run(c);
+            }
+        }
+    }
+    // first_step beyond the interval together with a max_step inside it
+    for m in ADAPTIVE {
+        for (x0, xend) in [(0.0, 1.0), (1.0, 0.0)] {
+            for (tol, tag) in [(1e-3, "loose"), (1e-8, "tight")] {
+                let mut c = base(m, Problem::new("decay", 1.0), x0, xend);
+                c.rtol = vec![tol];
+                c.atol = vec![tol * 1e-3];
+                c.first_step = Some((xend - x0) * 2.0);
+                c.max_step = Some(0.25);
+                c.t_eval = if tag == "loose" { Some(linspace(x0, xend, 11)) } else { None };
+                c.tags = vec![format!("first_step>span+max_step<span+{}", tag)];
+                o.run(c);
+            }
+        }
+    }
+    // first_step = max_step with a mildly rejected first attempt: the pinned first output, then steps of at most max_step
+    for m in ADAPTIVE {
+        for e in 0..(if quick { 8 } else { 24 }) {
+            let tol = 10f64.powf(-2.0 - 0.25 * e as f64);
+            let mut c = base(m, Problem::new("decay", 1.0), 0.0, 5.0);
+            c.rtol = vec![tol];
+            c.atol = vec![tol * 1e-3];
+            c.first_step = Some(0.5);
+            c.max_step = Some(0.5);
+            c.jac = "user".into();
+            c.tags = vec!["first_step=max_step+tolerance_scan".into()];
+            o.run(c);
         }
     }
     // small non-zero x0 with a comparatively large first step: x0 + h lies in a higher binade than x0
@@ -622,6 +701,19 @@ fn fam_lowlevel(o: &mut Out, quick: bool, rng: &mut Rng) {
                 let r = o.run(cm);
                 o.pair("C19", "equal_cb", &pl, &r, "ModifiedSolution with an unchanged state at the initial callback is a no-op (first_step given)");
             }
+            // a callback that restarts inside the step it was handed: moves x back to the middle of the step, writes the
+            // interpolated state there and returns ModifiedSolution (non-autonomous problem)
+            {
+                let mut c = base(m, Problem::new("relax", 3.0), *x0, *xend);
+                c.api = "low".into();
+                c.rtol = vec![1e-5];
+                c.atol = vec![1e-8];
+                c.jac = "user".into();
+                if *m == "RK4" { c.first_step = Some((xend - x0) / 16.0); }
+                c.script = vec![Script { k: 2, action: "modify_back".into() }, Script { k: 5, action: "modify_back".into() }];
+                c.tags = vec!["modify_back".into()];
+                o.run(c);
+            }
             // doubling at the initial callback
             for p in [Problem::new("lin2", 0.0), Problem::new("decay", 1.0)] {
                 let mut c = base(m, p, *x0, *xend);
@@ -716,6 +808,32 @@ fn fam_observer(o: &mut Out, quick: bool, rng: &mut Rng) {
         v.tags = vec!["repeat".into()];
         let b = o.run(v);
         o.pair("C12", "equal", &a, &b, "repeating the call gives bit-identical results");
+    }
+}
+
+/// C12: first_step whose first attempt is rejected (the handler skips outputs up to the pinned one); more than 100 requested times
+fn fam_observer_firststep(o: &mut Out) {
+    for m in METHODS {
+        for (x0, xend) in [(0.0, 2.0), (2.0, 0.0)] {
+            let mut c = base(m, Problem::new("sho", 0.0), x0, xend);
+            c.rtol = vec![1e-8];
+            c.atol = vec![1e-10];
+            c.jac = "user".into();
+            if m != "RK4" { c.first_step = Some((xend - x0) * 0.5); }
+            c.tags = vec!["plain+first_step_rejected".into()];
+            let a = o.run(c.clone());
+            let evs = vec![EventSpec { kind: "y0-a".into(), a: 0.3, dir: "All".into(), term: 0 }];
+            for (tag, te, dense, ev) in [("teval", Some(linspace(x0, xend, 9)), false, false), ("dense", None, true, false), ("events", None, false, true),
+                                         ("teval251", Some(linspace(x0, xend, 251)), false, false), ("teval251+dense", Some(linspace(x0, xend, 251)), true, false)] {
+                let mut v = c.clone();
+                v.t_eval = te;
+                v.dense = dense;
+                if ev { v.events = evs.clone(); }
+                v.tags = vec![format!("first_step_rejected+{}", tag)];
+                let b = o.run(v);
+                o.pair("C12", "observer", &a, &b, "output options with a rejected first_step / many requested times");
+            }
+        }
     }
 }
 
@@ -841,6 +959,23 @@ fn fam_budget_early_rejections(o: &mut Out, quick: bool) {
     }
 }
 
+/// C11: every budget on a nonlinear Radau run at a tight tolerance (budgets that run out on kept-step passes too)
+fn fam_budget_radau(o: &mut Out, quick: bool) {
+    let mut c = base("RADAU", Problem::new("vdp", 5.0), 0.0, 5.0);
+    c.rtol = vec![1e-9];
+    c.atol = vec![1e-12];
+    c.jac = "user".into();
+    c.tags = vec!["radau_tight+unbudgeted".into()];
+    let a = o.run(c.clone());
+    for k in 1..=(if quick { 60 } else { 160 }) {
+        let mut v = c.clone();
+        v.max_steps = Some(k);
+        v.tags = vec!["radau_tight+budget".into()];
+        let b = o.run(v);
+        o.pair("C11", "budget_prefix", &a, &b, "budgeted run is a prefix of the unbudgeted run");
+    }
+}
+
 /// C10: a terminal event in every accepted step of a run in turn (for all event positions relative to the step grid)
 fn fam_terminal_sweep(o: &mut Out, quick: bool) {
     for m in METHODS {
@@ -905,6 +1040,33 @@ fn fam_terminal(o: &mut Out, quick: bool, rng: &mut Rng) {
             let dir = if xend > x0 { 1.0 } else { -1.0 };
             let ke = keeps_earlier(&a, &b, dir);
             o.pair_f("C10", "terminal_prefix", &a, &b, "terminal run is a prefix of the non-terminal run; fact: events before the stop are kept", ke);
+        }
+    }
+}
+
+/// C10 / C11: a step budget that is used up exactly by the step in which the terminal event fires
+fn fam_terminal_budget(o: &mut Out) {
+    for m in METHODS {
+        for (x0, xend) in [(0.0, 6.0), (6.0, 0.0)] {
+            for cnt in [1usize, 2] {
+                let mut c = base(m, Problem::new("sho", 0.0), x0, xend);
+                c.rtol = vec![1e-5];
+                c.atol = vec![1e-8];
+                c.jac = "user".into();
+                if m == "RK4" { c.first_step = Some((xend - x0) / 40.0); }
+                c.events = vec![EventSpec { kind: "y0-a".into(), a: 0.0, dir: "Neg".into(), term: cnt }];
+                c.tags = vec!["terminal_unbudgeted".into()];
+                let a = o.run(c.clone());
+                let n = match &a.sol { Some(s) => s.nstep, None => continue };
+                if n == 0 { continue; }
+                for (k, tag) in [(n, "budget=steps_to_event"), (n + 1, "budget=steps_to_event+1")] {
+                    let mut v = c.clone();
+                    v.max_steps = Some(k);
+                    v.tags = vec![format!("terminal+{}", tag)];
+                    let b = o.run(v);
+                    o.pair("C10", "equal", &a, &b, "a budget that suffices up to the terminal event changes nothing");
+                }
+            }
         }
     }
 }
@@ -1021,7 +1183,8 @@ fn fam_symmetry(o: &mut Out, quick: bool, rng: &mut Rng) {
             v.map = format!("copies:{}", mcopies);
             v.tags = vec![format!("radau_rejections+copies{}", mcopies)];
             let b = o.run(v);
-            o.pair("C13", "equal", &a, &b, "independent identical copies, Radau with rejected first attempts");
+            let cc = copies_close(&a, &b);
+            o.pair_f("C13", "copies", &a, &b, "independent identical copies, Radau with rejected first attempts (fact: same step sequence and states up to rounding)", cc);
         }
     }
     // a long, stability-limited explicit run (stiffness detection is reached) and its reflection
@@ -1114,7 +1277,8 @@ fn fam_symmetry(o: &mut Out, quick: bool, rng: &mut Rng) {
                 // (a) automatic first step (hinit), (b) first step given: the main loop alone
                 let a0r = o.run(a0.clone());
                 let b = o.run(v.clone());
-                o.pair("C13", "equal", &a0r, &b, "independent identical copies");
+                let cc = copies_close(&a0r, &b);
+                o.pair_f("C13", "copies", &a0r, &b, "independent identical copies (fact: same step sequence and states up to rounding)", cc);
                 let fs = (xend - x0) * 1e-3;
                 a0.first_step = Some(fs);
                 a0.tags = vec!["reference_noev+first_step".into()];
@@ -1122,7 +1286,8 @@ fn fam_symmetry(o: &mut Out, quick: bool, rng: &mut Rng) {
                 v.tags = vec![format!("copies{}+first_step", mcopies)];
                 let a1 = o.run(a0);
                 let b1 = o.run(v);
-                o.pair("C13", "equal", &a1, &b1, "independent identical copies, first step given");
+                let cc = copies_close(&a1, &b1);
+                o.pair_f("C13", "copies", &a1, &b1, "independent identical copies, first step given (fact: same step sequence and states up to rounding)", cc);
             }
         }
     }
@@ -1196,8 +1361,9 @@ fn fam_storage(o: &mut Out, quick: bool, rng: &mut Rng) {
                 v.mass = format!("pow2:{}", k);
                 v.problem.fscale = k;
                 v.tags = vec![format!("mass=2^{}I", k)];
-                let b = o.run(v);
-                o.pair("C15", "equal_y", &a, &b, "mass 2^k I with rhs 2^k f");
+                // (no pair: invariance under scaling is not part of C15; the run is judged by the mass_reference fact -
+                // agreement with y' = M^-1 f integrated directly)
+                let _ = o.run(v);
             }
         }
     }
@@ -1261,6 +1427,17 @@ fn fam_storage_mass(o: &mut Out, quick: bool) {
                 if api == "solve_ivp" { o.pair("C15", "equal", &a, &b, "Jacobian band narrower than the mass pattern"); }
             }
         }
+    }
+    // a nonsingular mass with zeros on its diagonal (permutation-like)
+    for st in ["full", "banded:1,1", "banded:2,2"] {
+        let mut c = base("RADAU", Problem::new("lin3", 0.0), 0.0, 1.0);
+        c.jac = "user".into();
+        c.rtol = vec![1e-6];
+        c.atol = vec![1e-9];
+        c.mass = "perm3".into();
+        c.mass_storage = st.into();
+        c.tags = vec![format!("mass=perm3+mass_storage={}", st)];
+        o.run(c);
     }
     // index-1 DAEs: the algebraic equation first / last; diagonal singular mass in Full and Banded storage
     for (kind, mass) in [("dae3a", "diag:0,1,1"), ("dae3b", "diag:1,1,0")] {
@@ -1342,6 +1519,34 @@ fn fam_teval(o: &mut Out, quick: bool, rng: &mut Rng) {
         for r in &recs {
             let ok = grid_values_ok(&a, r, rel);
             o.pair_f("C05", "grid_values", &a, r, "fact: a requested time equal to an accepted step end carries that step's state (to rounding)", ok);
+        }
+    }
+}
+
+/// C05: the step cut to land on xend is attempted first and rejected (first_step >= span at a tight tolerance); a non-finite
+/// region shortly before xend: "every requested time not beyond the stopping point is still reported"
+fn fam_teval_landing(o: &mut Out) {
+    for m in ADAPTIVE {
+        for (x0, xend) in [(0.0, 2.0), (1.0, -1.0)] {
+            // first_step beyond the interval with a max_step inside it, first step accepted
+            {
+                let mut c = base(m, Problem::new("decay", 1.0), x0, xend);
+                c.first_step = Some((xend - x0) * 2.0);
+                c.max_step = Some(0.25);
+                c.t_eval = Some(linspace(x0, xend, 11));
+                c.tags = vec!["t_eval+first_step>span+max_step<span".into()];
+                o.run(c);
+            }
+            for (p, tag) in [(Problem::new("sho", 0.0), "landing_rejected"), (Problem::new("nan_after", x0 + 0.93 * (xend - x0)), "nan_shortly_before_xend")] {
+                let mut c = base(m, p.clone(), x0, xend);
+                if p.kind == "nan_after" && xend < x0 { continue; }
+                c.rtol = vec![1e-8];
+                c.atol = vec![1e-10];
+                if tag == "landing_rejected" { c.first_step = Some((xend - x0) * 1.5); c.max_step = Some(f64::INFINITY); }
+                c.t_eval = Some(linspace(x0, xend, 9));
+                c.tags = vec![format!("t_eval+{}", tag)];
+                o.run(c);
+            }
         }
     }
 }
@@ -1486,12 +1691,12 @@ fn main() {
             "core" => fam_core(&mut o, quick, &mut rng),
             "adversarial" => fam_adversarial(&mut o, quick, &mut rng),
             "lowlevel" => fam_lowlevel(&mut o, quick, &mut rng),
-            "observer" => { fam_observer(&mut o, quick, &mut rng); fam_observer_wide(&mut o, quick); fam_observer_long(&mut o, quick); }
-            "budget" => { fam_budget(&mut o, quick, &mut rng); fam_budget_early_rejections(&mut o, quick); }
-            "terminal" => { fam_terminal(&mut o, quick, &mut rng); fam_terminal_last(&mut o, quick); fam_terminal_sweep(&mut o, quick); }
+            "observer" => { fam_observer(&mut o, quick, &mut rng); fam_observer_wide(&mut o, quick); fam_observer_firststep(&mut o); fam_observer_long(&mut o, quick); }
+            "budget" => { fam_budget(&mut o, quick, &mut rng); fam_budget_early_rejections(&mut o, quick); fam_budget_radau(&mut o, quick); }
+            "terminal" => { fam_terminal(&mut o, quick, &mut rng); fam_terminal_last(&mut o, quick); fam_terminal_sweep(&mut o, quick); fam_terminal_budget(&mut o); }
             "symmetry" => fam_symmetry(&mut o, quick, &mut rng),
             "storage" => { fam_storage(&mut o, quick, &mut rng); fam_storage_mass(&mut o, quick); }
-            "teval" => { fam_teval(&mut o, quick, &mut rng); fam_teval_zero(&mut o); }
+            "teval" => { fam_teval(&mut o, quick, &mut rng); fam_teval_zero(&mut o); fam_teval_landing(&mut o); }
             "events" => { fam_events(&mut o, quick, &mut rng); fam_events_small(&mut o); fam_events_codes(&mut o); fam_events_tiny(&mut o); }
             _ => { eprintln!("unknown family {}", fam); std::process::exit(2); }
         }
